@@ -13,7 +13,8 @@ freedom so that the rules see one spelling:
   negative comparisons ``!=``, ``not in``, ``is not`` and for ``a <= b`` (written ``b < a`` with the branches exchanged)
 * ``range(0, n)`` -> ``range(n)``;  ``1 + i`` -> ``i + 1`` (integer constant operand of + and * goes to the right)
 * ``if a: if b: X`` -> ``if a and b: X`` (no else branches);  a loop body ``if c: continue; REST`` -> ``if not c: REST``
-* ``x = x + 1`` -> ``x += 1`` (name target, integer constant)
+* ``x = x + 1`` -> ``x += 1`` (name target, integer constant);  ``x += [y]`` -> ``x.append(y)``;  ``list()`` / ``dict()`` -> ``[]`` / ``{}``
+* inside functions ``x: T = e`` -> ``x = e`` for a plain local
 * ``t = E; return t`` -> ``return E`` when ``t`` is a plain local that no nested function or lambda refers to
 
 Line numbers are kept (``copy_location``), so reports still point at the source.
@@ -122,9 +123,34 @@ class Canon(ast.NodeTransformer):
 
     def visit_Call(self, node: ast.Call):
         self.generic_visit(node)
+        if isinstance(node.func, ast.Name) and not node.args and not node.keywords and node.func.id in ("list", "dict"):
+            return ast.copy_location(ast.List(elts=[], ctx=ast.Load()) if node.func.id == "list" else ast.Dict(keys=[], values=[]), node)
         if isinstance(node.func, ast.Name) and node.func.id == "range" and len(node.args) == 2 and not node.keywords and isinstance(node.args[0], ast.Constant) and node.args[0].value == 0 \
                 and type(node.args[0].value) is int:
             node.args = [node.args[1]]
+        return node
+
+    _fdepth = 0
+
+    def visit_AnnAssign(self, node: ast.AnnAssign):
+        self.generic_visit(node)
+        # inside a function an annotated assignment of a plain local is an assignment (class-level annotations carry meaning)
+        if self._fdepth and node.value is not None and isinstance(node.target, ast.Name):
+            return ast.copy_location(ast.Assign(targets=[node.target], value=node.value), node)
+        return node
+
+    def visit_ClassDef(self, node: ast.ClassDef):
+        d, self._fdepth = self._fdepth, 0
+        self.generic_visit(node)
+        self._fdepth = d
+        return node
+
+    def visit_AugAssign(self, node: ast.AugAssign):
+        self.generic_visit(node)
+        # x += [y]  ->  x.append(y)   (in-place growth of a list by one element)
+        if isinstance(node.op, ast.Add) and isinstance(node.target, ast.Name) and isinstance(node.value, ast.List) and len(node.value.elts) == 1 and not isinstance(node.value.elts[0], ast.Starred):
+            call = ast.Call(func=ast.Attribute(value=ast.Name(id=node.target.id, ctx=ast.Load()), attr="append", ctx=ast.Load()), args=[node.value.elts[0]], keywords=[])
+            return ast.copy_location(ast.Expr(value=ast.copy_location(call, node)), node)
         return node
 
     def visit_BinOp(self, node: ast.BinOp):
@@ -172,7 +198,9 @@ class Canon(ast.NodeTransformer):
                     if isinstance(m, ast.Name):
                         cap.add(m.id)
         self._captured = cap
+        self._fdepth += 1
         self.generic_visit(node)
+        self._fdepth -= 1
         node.body = self._stmts(node.body)
         self._captured = saved
         return node
